@@ -579,6 +579,22 @@ func (c *cmp) findChecks(rng *rand.Rand, res *schema.Resolver, pairs int) {
 						}
 						c.out = append(c.out, Disc{Class: "find-nonexistent", Detail: fmt.Sprintf("Find(%s) from %s returned %s", bogus, a.Path(), got.Path()), Facts: map[string]any{"bogus_step_under": under}})
 					}
+					// a step that names no child, undone by ".." right after it: the rest of
+					// the path is the true one, yet the lookup has already failed
+					detour := ""
+					for j, n := range ns {
+						if j == i && i > 0 {
+							detour += "/" + pfx + ":zz9/.."
+						}
+						detour += "/" + pfx + ":" + n
+					}
+					if i == 0 {
+						detour += "/zz9/.."
+					}
+					c.Lookups++
+					if got := ea.Find(detour); got != nil {
+						c.out = append(c.out, Disc{Class: "find-nonexistent", Detail: fmt.Sprintf("Find(%s) from %s returned %s although zz9 names no child", detour, a.Path(), got.Path()), Facts: map[string]any{"bogus_step_under": "detour"}})
+					}
 				}()
 			}
 		}
@@ -655,6 +671,164 @@ func (c *cmp) heldTree(rng *rand.Rand, ms *yang.Modules) {
 				c.bad(b, "find-leaves-held-tree", "after a second Process, Find(%s) from %s of the tree held since the first returned %s", path, a.Path(), where)
 			}
 		}()
+	}
+}
+
+// shorthandAugment loads the set once more together with a module that augments containers
+// and lists which are shorthand members of a choice, spelling the target without the
+// implicit case (goyang resolves augments before it inserts implicit cases; what such an
+// augment means is outside C07's claim and is not judged here). The lookups are then judged
+// on their own terms, without the reference: on the processed trees every node reachable by
+// walking must be what its absolute path leads to, from the root and from a deep node, and a
+// step that names no child must lead nowhere. This is the situation in which the tree was
+// looked into (by the augment) before it got its final shape.
+func (c *cmp) shorthandAugment(rng *rand.Rand, res *schema.Resolver, files []File, count func(string, int64)) {
+	type target struct {
+		rm   *schema.Mod
+		path []string
+	}
+	var ts []target
+	var xs []*schema.X
+	for x := range c.x2e {
+		xs = append(xs, x)
+	}
+	sort.Slice(xs, func(i, j int) bool { return xs[i].Path() < xs[j].Path() })
+	for _, x := range xs {
+		if x.Parent == nil || !x.Parent.Implicit || (x.Kind != "container" && x.Kind != "list") {
+			continue
+		}
+		ok := true
+		var steps []string
+		for n := x; n.Parent != nil; n = n.Parent {
+			if n.Implicit {
+				if n != x.Parent {
+					ok = false
+				}
+				continue
+			}
+			steps = append([]string{n.Name}, steps...)
+		}
+		var rm *schema.Mod
+		for m, rx := range res.Roots {
+			if rx == rootOf(x) {
+				rm = m
+			}
+		}
+		if ok && rm != nil {
+			ts = append(ts, target{rm, steps})
+		}
+	}
+	if len(ts) == 0 {
+		return
+	}
+	rng.Shuffle(len(ts), func(a, b int) { ts[a], ts[b] = ts[b], ts[a] })
+	if len(ts) > 2 {
+		ts = ts[:2]
+	}
+	var b strings.Builder
+	b.WriteString("module zzsa {\n  namespace \"urn:zzsa\";\n  prefix zzsa;\n")
+	seen := map[string]bool{}
+	for k, t := range ts {
+		if !seen[t.rm.Name] {
+			seen[t.rm.Name] = true
+			fmt.Fprintf(&b, "  import %s { prefix t%s; }\n", t.rm.Name, t.rm.Name)
+		}
+		_ = k
+	}
+	for k, t := range ts {
+		p := ""
+		for _, st := range t.path {
+			p += "/t" + t.rm.Name + ":" + st
+		}
+		fmt.Fprintf(&b, "  augment %q {\n    leaf zzsal%d { type string; }\n    container zzsab%d { leaf deep { type string; } }\n  }\n", p, k, k)
+	}
+	b.WriteString("}\n")
+	ms := yang.NewModules()
+	for _, f := range files {
+		if err := ms.Parse(f.Text, f.Name); err != nil {
+			return
+		}
+	}
+	if err := ms.Parse(b.String(), "zzsa.yang"); err != nil {
+		return
+	}
+	if errs := ms.Process(); len(errs) > 0 {
+		count("shorthand_augment_sets_with_errors", 1)
+		return
+	}
+	count("shorthand_augment_sets", 1)
+	for _, t := range ts[:1] {
+		mod := ms.Modules[t.rm.Name]
+		if mod == nil {
+			continue
+		}
+		root := yang.ToEntry(mod)
+		pfx := t.rm.Prefix
+		var deep *yang.Entry
+		var walk func(e *yang.Entry, path string, d int)
+		var nodes []struct {
+			e    *yang.Entry
+			path string
+		}
+		walk = func(e *yang.Entry, path string, d int) {
+			if e == nil || d > 40 {
+				return
+			}
+			if path != "" {
+				nodes = append(nodes, struct {
+					e    *yang.Entry
+					path string
+				}{e, path})
+				if len(e.Dir) == 0 && e.RPC == nil && (deep == nil || d > 3) {
+					deep = e
+				}
+			}
+			var ks []string
+			for k := range e.Dir {
+				ks = append(ks, k)
+			}
+			sort.Strings(ks)
+			for _, k := range ks {
+				walk(e.Dir[k], path+"/"+pfx+":"+k, d+1)
+			}
+			if e.RPC != nil {
+				walk(e.RPC.Input, path+"/"+pfx+":input", d+1)
+				walk(e.RPC.Output, path+"/"+pfx+":output", d+1)
+			}
+		}
+		walk(root, "", 0)
+		starts := []*yang.Entry{root}
+		// (a start node defined in another file may not know the prefix; the root and a node
+		// of the module's own text do)
+		if deep != nil && deep.Node != nil && yang.RootNode(deep.Node) == mod {
+			starts = append(starts, deep)
+		}
+		for _, n := range nodes {
+			for _, st := range starts {
+				func() {
+					defer func() {
+						if rec := recover(); rec != nil {
+							c.bad(nil, "find-panic", "Find(%s): %v", n.path, rec)
+						}
+					}()
+					c.Lookups++
+					if got := st.Find(n.path); got != n.e {
+						where := "nothing"
+						if got != nil {
+							where = fmt.Sprintf("the %v %s", got.Kind, got.Path())
+						}
+						c.out = append(c.out, Disc{Class: "find-absolute", Detail: fmt.Sprintf("after an augment of a shorthand choice member: Find(%s) from %s returned %s, walking leads to the %v %s", n.path, st.Path(), where, n.e.Kind, n.e.Path()), Facts: map[string]any{"shorthand_augment": true}})
+					}
+					c.Lookups++
+					if got := st.Find(n.path + "/" + pfx + ":zz9"); got != nil {
+						c.out = append(c.out, Disc{Class: "find-nonexistent", Detail: fmt.Sprintf("after an augment of a shorthand choice member: Find(%s/%s:zz9) returned %s", n.path, pfx, got.Path()), Facts: map[string]any{"bogus_step_under": "shorthand-augment"}})
+					}
+				}()
+			}
+			if len(c.out) > 0 {
+				return
+			}
+		}
 	}
 }
 
@@ -868,6 +1042,9 @@ func Run(j *job.Job, s *job.Sink) {
 			}
 			if len(c.out) == 0 && j.Property == "C17" && i%4 == 0 {
 				c.heldTree(rng, ms)
+			}
+			if len(c.out) == 0 && j.Property == "C17" && i%4 == 1 {
+				c.shorthandAugment(rng, res, cs.Files, func(k string, n int64) { s.Count(k, n) })
 			}
 		}()
 		s.Count("nodes_compared", int64(c.Nodes))
